@@ -241,6 +241,7 @@ Lemma wf_input S n d p name dirs fields kw :
   NoDup (map (fun d => iname (iv_name d)) fields).
 Proof.
   intros Hwf Hg. apply get_type_In in Hg. unfold schema_wf in Hwf.
+  rewrite !andb_true_iff in Hwf. destruct Hwf as [[Hwf _] _].
   rewrite forallb_forall in Hwf. specialize (Hwf _ Hg). cbn in Hwf.
   apply nodup_str_NoDup, Hwf.
 Qed.
@@ -436,7 +437,7 @@ Section ValueSound.
           apply Forall_forall. intros kv Hin t' Ht'. rewrite Forall_forall in IHfs. apply (IHfs kv Hin t' Ht').
         * intros ld. rewrite obj_uses_unfold. unfold input_defs. cbn [unwrap_lists].
           unfold check_named in H. rewrite get_type_sp in H.
-          destruct (sp_type S (iname n)) as [td|] eqn:Eg; [|constructor].
+          destruct (sp_type S (iname n)) as [td|] eqn:Eg; [|discriminate H].
           destruct td as [d p' name dirs kw|d p' name impls dirs fs' kw|d p' name impls dirs fs' kw|d p' name dirs mem' kw
                          |d p' name dirs vals kw|d p' name dirs fields kw];
             try (unfold obj_uses; apply Forall_flat_map; intros kv _; cbn; constructor).
